@@ -1,7 +1,9 @@
 """C11 — recovered displacement / strain / stress fields match the Ritz series and the Donnell kinematics.
 T: Gen/Field/*.lean regenerated from clt_bardell_field*.pyx (per point, per dof increments); Props/C11.lean re-checked.
 V: the translated increments summed over the degrees of freedom vs the running fuvw / fstrain.
-H: Model/Chunking.lean (pad / reshape / map / ravel / trim) vs the running wrappers for 1..16 cores (driver).
+H: Model/Chunking.lean (pad / reshape / map / ravel / trim) vs the running wrappers for 1..16 cores (driver);
+   Model/FieldGlue.lean (Python glue of Panel.uvw / strain / stress and PanelAssembly.uvw / strain / stress) vs the running glue:
+   recorded calls of the compiled fuvw / fstrain, result shapes / arrangement, stored attributes, exceptions (field_glue_correspondence).
 Implementation arm: exact series / Donnell oracle vs Panel.uvw, Panel.strain, Panel.stress, PanelAssembly slices.
 """
 import os
@@ -17,16 +19,26 @@ TRUSTED = pc.TRUSTED_T + [
     'tools/cyexec.py (Cython-subset source executor, validated by its --selftest and by bit-identical agreement with the binaries on the unchanged tree): the source reading of the hand-written .pyx/.pxi files',
     'hand model lean/CompmechVerif/Model/Chunking.lean of the pad/reshape/prange/ravel/trim logic of fuvw/fstrain '
     '(tied by the driver correspondence for core counts 1..16)',
+    'hand model lean/CompmechVerif/Model/FieldGlue.lean of the Python glue of the field queries (points from xs, ys / gridx, gridy; slices, group '
+    'filter and col_start / col_end of an assembly; reshape, stored attributes, exceptions), tied by the recorded-call correspondence '
+    'field_glue_correspondence (every executable line of the modelled functions must be reached by its corpus)',
     'OpenMP scheduling / data races cannot be exhibited by the model: identical outputs across core counts are required '
     'by the harness as supporting evidence only',
 ]
 ASSUMPTIONS = ['conical panels are rejected by fstrain (NotImplementedError): outside C11',
+               'the length of c is checked by none of Panel.uvw / strain / stress, PanelAssembly.uvw / strain / stress (no check_c; the compiled '
+               'wrappers are built with boundscheck=False): a vector that is too short is read out of bounds; the glue model hands c over as it '
+               'is and the correspondence never lets the compiled code run on such a vector',
                'stress = F * strain: Panel.stress is plain Python; Props/C11 stress_eq_F_strain / stress_nlterms_forwarded / '
                'stress_linear_eq_F_donnell are theorems about the hand model panelStress of Model/Chunking.lean, which has no driver: its tie '
                'to the running code is the numerical clause below (stress resultants vs F times the strains of the same NLterms option)']
 RULE = ('random flat / cylindrical panels (m,n 1..4, generic flags), random amplitude vectors, scattered / gridded / edge '
         'point sets whose size is not a multiple of the core count, 1..16 cores, linear and non-linear strain options, '
-        'panels inside assemblies; non-trivial = m*n >= 4 and >= 5 points and cores > 1; distinct by case parameters')
+        'panels inside assemblies; non-trivial = m*n >= 4 and >= 5 points and cores > 1; distinct by case parameters.  Glue corpus: panel '
+        'queries (uvw / strain / stress) with scalars, lists, 1-d / 2-d / Fortran-ordered arrays, permuted and duplicated points, empty arrays, grids '
+        '(incl. counts 0 and negative), one of xs / ys missing, mismatching shapes; c as array, list, strided view, 0-d, 2-d, short, long; models incl. '
+        'the one-field one, None and unknown; assemblies of 2-4 panels in 1-3 groups with different m, n, missing F, absent group, overwritten '
+        'col_start / col_end; compiled or fake kernels; non-trivial = >= 4 points resp. >= 2 panels in the queried group')
 
 
 def translate(ctx):
@@ -261,6 +273,666 @@ def assembly_slices(ctx, rng, t=None):
     return None, None
 
 
+# ----------------------------------------------------------------------------- H: glue of the field queries (Model/FieldGlue.lean)
+FG_TAG = {'plate_clt_donnell_bardell': 'plate', 'plate_clt_donnell_bardell_w': 'platew', 'cpanel_clt_donnell_bardell': 'cpanel',
+          'kpanel_clt_donnell_bardell': 'kpanel'}
+FG_NUM = {'plate': 3, 'platew': 1, 'cpanel': 3, 'kpanel': 3}
+FG_UVW = ('u', 'v', 'w', 'phix', 'phiy')
+FG_E = ('exx', 'eyy', 'gxy', 'kxx', 'kyy', 'kxy')
+FG_N = ('Nxx', 'Nyy', 'Nxy', 'Mxx', 'Myy', 'Mxy')
+
+
+def fake_F(pid):
+    """`fakeF` of Drv/C11.lean"""
+    return np.array([[(pid + 1) + 2. * r + q_ / 4. for q_ in range(6)] for r in range(6)])
+
+
+def _hsum(c):
+    return float(sum((i + 1) * float(x) for i, x in enumerate(c)))
+
+
+def fake_uvw(fm, pid, c, xs, ys):
+    """`fake.uvw` of Drv/C11.lean on whole arrays (exact in floating point for the dyadic inputs of the corpus)"""
+    one = np.ones(len(xs))
+    return (xs + pid, 2. * ys + (0.5 if fm == 'cltW' else 0.), _hsum(c) * one, float(len(c)) * one, xs - 3. * ys)
+
+
+def fake_strain(pid, c, xs, ys, nl):
+    one = np.ones(len(xs))
+    return (xs + pid, ys.copy(), _hsum(c) * one, float(nl) * one, float(len(c)) * one, xs - 3. * ys)
+
+
+class _FieldRec(object):
+    """stands in for `modelDB.db[model]['field']`: records every call of fuvw / fstrain (copies of what the compiled function would see) and
+    either lets the compiled function run or returns the fake values"""
+
+    def __init__(self, real, log, state):
+        self._real, self._log, self._state = real, log, state
+        self._fm = 'cltW' if real.__name__.endswith('_w') else 'clt'
+
+    def __getattr__(self, nm):
+        f = getattr(self._real, nm)                 # AttributeError for `fstrain` of clt_bardell_field_w, as for the real module
+        if nm not in ('fuvw', 'fstrain'):
+            return f
+
+        def rec(c, p, xs, ys, num_cores=4, NLterms=0):
+            c_ = np.asarray(c)
+            e = dict(fn=nm, fm=self._fm, pid=getattr(p, '_fg_id', -1), cores=int(num_cores), nl=int(NLterms), cndim=c_.ndim,
+                     c=np.array(c_, dtype=float).ravel().copy(), xs=np.array(xs, dtype=float).copy(), ys=np.array(ys, dtype=float).copy())
+            if c_.ndim != 1:                        # the typed-memoryview signature `double [:] c` rejects the call: the body never runs
+                raise ValueError('Buffer has wrong number of dimensions (expected 1, got %d)' % c_.ndim)
+            self._log.append(e)
+            need = (1 if self._fm == 'cltW' else 3) * p.m * p.n
+            if self._state['real'] and len(c_) >= need:
+                out = f(c, p, xs, ys, num_cores) if nm == 'fuvw' else f(c, p, xs, ys, num_cores, NLterms)
+            elif nm == 'fuvw':
+                out = fake_uvw(self._fm, e['pid'], e['c'], e['xs'], e['ys'])
+            else:
+                out = fake_strain(e['pid'], e['c'], e['xs'], e['ys'], e['nl'])
+            e['out'] = [np.array(o, dtype=float).copy() for o in out]
+            return out
+        return rec
+
+
+class _fg_install(object):
+    def __init__(self, log, real):
+        self.log, self.state, self.saved = log, dict(real=real), {}
+
+    def __enter__(self):
+        from compmech.panel import modelDB
+        for name, ent in modelDB.db.items():
+            self.saved[name] = ent['field']
+            ent['field'] = _FieldRec(ent['field'], self.log, self.state)
+        return self
+
+    def __exit__(self, *a):
+        from compmech.panel import modelDB
+        for name, v in self.saved.items():
+            modelDB.db[name]['field'] = v
+
+
+def _dy(rng, lo, hi, den):
+    """a multiple of 1/den in [lo, hi]"""
+    return rng.randint(int(lo * den), int(hi * den)) / float(den)
+
+
+def fg_make_panel(rng, spec, pid, real):
+    """a Panel for the glue corpus; `spec` = dict(model, m, n, a, b, cores, F)"""
+    from compmech.panel import Panel
+    mtag = spec['model']
+    name = {v: k for k, v in FG_TAG.items()}.get(mtag)
+    kw = dict(a=spec['a'], b=spec['b'], stack=[0, 90], plyt=1e-3, laminaprop=(142.5e9, 8.7e9, 0.28, 5.1e9, 5.1e9, 5.1e9), m=spec['m'], n=spec['n'])
+    if mtag in ('cpanel', 'kpanel'):
+        kw['r'] = 3.
+    if mtag == 'kpanel':
+        kw['alphadeg'] = 10.
+    p = Panel(**kw)
+    for f_ in 'uvw':                                          # all edges free: with m, n <= 4 every other choice switches whole fields off
+        for e_ in ('1tx', '1rx', '2tx', '2rx', '1ty', '1ry', '2ty', '2ry'):
+            setattr(p, f_ + e_, 1.)
+    if real and name is not None:
+        p.model = name
+        pc.quiet(p.calc_k0, silent=True)                      # r, alpharad as the compiled code reads them
+    p.model = name if name is not None else (None if mtag == 'unset' else 'no_such_model')
+    p.out_num_cores = spec['cores']
+    p.F = fake_F(pid) if spec['F'] else None
+    p._fg_id = pid
+    p.u = p.v = p.w = p.phix = p.phiy = p.Xs = p.Ys = None
+    return p
+
+
+def fg_gen_c(rng, kind, size):
+    """(python object handed over as `c`, driver text)"""
+    from tools.common import q
+    n = {'short': max(size - rng.randint(1, 3), 0), 'long': size + rng.randint(1, 4)}.get(kind, size)
+    v = np.array([_dy(rng, -1, 1, 64) for _ in range(n)])
+    if kind == 'scalar':
+        x = _dy(rng, -1, 1, 64)
+        return np.array(x), 's ' + q(x)
+    if kind == '2d':
+        return np.array([[_dy(rng, -1, 1, 64) for _ in range(2)] for _ in range(size)]), 'nd'
+    txt = 'v ' + ' '.join(q(x) for x in v)
+    if kind == 'list':
+        return [float(x) for x in v], txt
+    if kind == 'strided':
+        big = np.array([_dy(rng, -3, 3, 64) for _ in range(2 * n)])
+        big[::2] = v
+        return big[::2], txt
+    return v, txt
+
+
+def fg_arr_txt(x):
+    from tools.common import q
+    if x is None:
+        return '-'
+    A = np.array(x, dtype=float)
+    return ' '.join(str(d) for d in A.shape) + ' : ' + ' '.join(q(v) for v in A.ravel())
+
+
+def fg_gen_points(rng, a, b):
+    """(kind, xs, ys, gridx, gridy): the python objects handed over"""
+    kind = rng.choice(['scalar', 'list', 'array1d', 'array2d', 'array2d_T', 'perm_dup', 'grid', 'grid', 'one_none', 'mismatch', 'neg_grid', 'empty'])
+    gx, gy = rng.choice([1, 2, 3, 4, 5]), rng.choice([1, 2, 3, 4])
+    if rng.random() < 0.1:
+        gx = rng.choice([0, 9])
+    px = lambda: _dy(rng, 0, a, 8)
+    py = lambda: _dy(rng, 0, b, 8)
+    n = rng.choice([1, 2, 3, 5, 7])
+    if kind == 'scalar':
+        return kind, px(), py(), gx, gy
+    if kind == 'list':
+        return kind, [px() for _ in range(n)], [py() for _ in range(n)], gx, gy
+    if kind == 'array1d':
+        return kind, np.array([px() for _ in range(n)]), np.array([py() for _ in range(n)]), gx, gy
+    if kind in ('array2d', 'array2d_T'):
+        r_, c_ = rng.choice([(2, 3), (3, 2), (1, 4), (2, 2)])
+        X = np.array([[px() for _ in range(c_)] for _ in range(r_)])
+        Y = np.array([[py() for _ in range(c_)] for _ in range(r_)])
+        if kind == 'array2d_T':
+            return kind, np.array(X.T, order='C').T, np.array(Y.T, order='C').T, gx, gy          # same numbers, Fortran-ordered memory
+        return kind, X, Y, gx, gy
+    if kind == 'perm_dup':
+        base = [(px(), py()) for _ in range(n)]
+        idx = [rng.randrange(n) for _ in range(rng.randint(1, 2 * n))]
+        rng.shuffle(idx)
+        return kind, np.array([base[i][0] for i in idx]), np.array([base[i][1] for i in idx]), gx, gy
+    if kind == 'grid':
+        return kind, None, None, gx, gy
+    if kind == 'one_none':
+        return (kind, np.array([px()]), None, gx, gy) if rng.random() < 0.5 else (kind, None, [py(), py()], gx, gy)
+    if kind == 'mismatch':
+        return rng.choice([(kind, [px(), px()], [py()], gx, gy), (kind, np.ones((2, 3)), np.ones((3, 2)), gx, gy), (kind, np.ones((2, 3)), np.ones(6), gx, gy),
+                           (kind, px(), [py(), py()], gx, gy)])
+    if kind == 'neg_grid':
+        return (kind, None, None, -1, gy) if rng.random() < 0.5 else (kind, None, None, gx, -2)
+    return kind, np.zeros(0), np.zeros(0), gx, gy
+
+
+def fg_gen_pcase(rng, t):
+    mtag = rng.choice(['plate'] * 7 + ['cpanel'] * 6 + ['platew'] * 3 + ['kpanel', 'unset', 'invalid'])
+    spec = dict(model=mtag, m=rng.randint(1, 4), n=rng.randint(1, 4), a=_dy(rng, 0.5, 3, 8), b=_dy(rng, 0.5, 3, 8), cores=rng.randint(1, 6),
+                F=rng.random() < 0.75)
+    meth = rng.choice(['uvw', 'uvw', 'strain', 'stress', 'stress'])
+    ckind = rng.choice(['ok'] * 8 + ['list', 'strided', 'scalar', '2d', 'short', 'long'])
+    real = rng.random() < 0.5 and mtag in ('plate', 'cpanel', 'platew') and ckind not in ('short', 'scalar')
+    return dict(kind='panel', spec=spec, meth=meth, ckind=ckind, real=real, nl=rng.random() < 0.5, Farg=rng.random() < 0.3, seed=rng.randrange(10 ** 9))
+
+
+def fg_gen_acase(rng, t):
+    npan = rng.randint(2, 4)
+    labels = ['A', 'B', 'C'][:rng.randint(1, 3)]
+    specs = []
+    for k in range(npan):
+        mtag = rng.choice(['plate'] * 6 + ['cpanel'] * 5 + ['platew', 'unset'])
+        specs.append(dict(model=mtag, m=rng.randint(1, 4), n=rng.randint(1, 4), a=_dy(rng, 0.5, 3, 8), b=_dy(rng, 0.5, 3, 8), cores=rng.randint(1, 6),
+                          F=rng.random() < 0.88, group=rng.choice(labels)))
+    meth = rng.choice(['uvw', 'strain', 'stress'])
+    ckind = rng.choice(['ok'] * 6 + ['strided', 'strided', 'list', 'scalar', '2d', 'short', 'long'])
+    real = rng.random() < 0.5 and ckind not in ('short', 'scalar')
+    gx, gy = rng.choice([1, 2, 3, 4, 5]), rng.choice([1, 2, 3, 4])
+    r_ = rng.random()
+    if r_ < 0.06:
+        gx = -1
+    elif r_ < 0.12:
+        gy = 0
+    return dict(kind='assembly', specs=specs, meth=meth, ckind=ckind, real=real, nl=rng.random() < 0.5, gx=gx, gy=gy, acores=rng.randint(1, 6),
+                group=rng.choice(labels + ['Z']) if rng.random() < 0.15 else rng.choice(labels), tamper=rng.choice([None] * 8 + ['none', 'shift']),
+                seed=rng.randrange(10 ** 9))
+
+
+def _fg_ptxt(p, spec, group=0):
+    from tools.common import q
+    st = p.__dict__
+    return ('model=%s a=%s b=%s m=%d n=%d cores=%d id=%d F=%d group=%d cs=%s ce=%s'
+            % (spec['model'], q(p.a), q(p.b), p.m, p.n, p.out_num_cores, p._fg_id, p.F is not None, group,
+               '-' if st.get('col_start') is None else st['col_start'], '-' if st.get('col_end') is None else st['col_end']))
+
+
+def fg_run(g, tracer=None):
+    """runs the real glue on one case of the corpus; returns dict(line, log, outcome, ...)"""
+    import contextlib
+    import random as _random
+    rng = _random.Random(g['seed'])
+    log = []
+    glabel = {'A': 1, 'B': 2, 'C': 3, 'Z': 26}
+    tr = tracer if tracer is not None else contextlib.nullcontext()
+    if g['kind'] == 'panel':
+        spec = g['spec']
+        p = fg_make_panel(rng, spec, rng.randint(0, 9), g['real'])
+        size = FG_NUM.get(spec['model'], 3) * p.m * p.n
+        c, ctxt = fg_gen_c(rng, g['ckind'], size)
+        pk, xs, ys, gx, gy = fg_gen_points(rng, p.a, p.b)
+        Farg = fake_F(p._fg_id + 100) if g['Farg'] else None
+        line = 'C11 pfield %s | %s | gridx=%d gridy=%d nl=%d Farg=%d | %s | %s | %s' % (
+            g['meth'], _fg_ptxt(p, spec), gx, gy, g['nl'], g['Farg'], ctxt, fg_arr_txt(xs), fg_arr_txt(ys))
+        with _fg_install(log, g['real']):
+            try:
+                with tr:
+                    if g['meth'] == 'uvw':
+                        ret = p.uvw(c, xs=xs, ys=ys, gridx=gx, gridy=gy)
+                    elif g['meth'] == 'strain':
+                        ret = p.strain(c, xs=xs, ys=ys, gridx=gx, gridy=gy, NLterms=g['nl'])
+                    else:
+                        ret = p.stress(c, F=Farg, xs=xs, ys=ys, gridx=gx, gridy=gy, NLterms=g['nl'])
+                outcome = ('ok', ret)
+            except Exception as e:                               # noqa
+                outcome = ('err', type(e).__name__, str(e))
+        return dict(line=line, log=log, outcome=outcome, p=p, given=xs is not None and ys is not None, pkind=pk, Farg=Farg,
+                    scale=max(abs(p.a), abs(p.b), 1.))
+    from compmech.panel.assembly import PanelAssembly
+    ps = [fg_make_panel(rng, s_, k, g['real']) for k, s_ in enumerate(g['specs'])]
+    for p, s_ in zip(ps, g['specs']):
+        p.group = s_['group']
+    with tr:
+        asm = PanelAssembly(ps)
+        size = asm.get_size()
+    init_line = 'C11 ainit ' + ' '.join('%d,%d' % (p.m, p.n) for p in ps)
+    ranges = ' '.join('%s:%s' % (p.col_start, p.col_end) for p in ps) + ' | %d' % size
+    init = 1
+    if g['tamper'] == 'none':
+        k = rng.randrange(len(ps))
+        ps[k].col_start = ps[k].col_end = None
+        init = 0
+    elif g['tamper'] == 'shift':
+        k = rng.randrange(len(ps))
+        ps[k].col_start, ps[k].col_end = ps[k].col_start + 1, ps[k].col_end + 2
+        init = 0
+    asm.out_num_cores = g['acores']
+    c, ctxt = fg_gen_c(rng, g['ckind'], size)
+    ptxt = ' ; '.join(_fg_ptxt(p, s_, glabel[s_['group']]) if not init else
+                      _fg_ptxt(p, s_, glabel[s_['group']]).rsplit(' cs=', 1)[0] + ' cs=- ce=-' for p, s_ in zip(ps, g['specs']))
+    line = 'C11 afield %s | cores=%d init=%d | %s | group=%d gridx=%d gridy=%d nl=%d | %s' % (
+        g['meth'], g['acores'], init, ptxt, glabel[g['group']], g['gx'], g['gy'], g['nl'], ctxt)
+    with _fg_install(log, g['real']):
+        try:
+            with tr:
+                if g['meth'] == 'uvw':
+                    ret = asm.uvw(c, g['group'], gridx=g['gx'], gridy=g['gy'])
+                else:
+                    ret = getattr(asm, g['meth'])(c, g['group'], gridx=g['gx'], gridy=g['gy'], NLterms=g['nl'])
+            outcome = ('ok', ret)
+        except Exception as e:                                   # noqa
+            outcome = ('err', type(e).__name__, str(e))
+    return dict(line=line, log=log, outcome=outcome, ps=ps, init_line=init_line, ranges=ranges, c=c, size=size,
+                scale=max([1.] + [abs(p.a) for p in ps] + [abs(p.b) for p in ps]))
+
+
+def _fg_parse_arr(txt):
+    """`d0 d1 : q q q` -> (shape tuple, [Fraction]) ; `-` -> None"""
+    from tools.common import unq
+    txt = txt.strip()
+    if txt == '-':
+        return None
+    sh, da = txt.split(':')
+    return tuple(int(x) for x in sh.split()), [unq(x) for x in da.split()]
+
+
+def _fg_vals_bad(name, got, want, scale, exact):
+    """floats `got` (any shape, C order) against the model's Fractions"""
+    from fractions import Fraction
+    g_ = np.asarray(got, dtype=float).ravel()
+    if len(g_) != len(want):
+        return '%s has %d entries, the model %d' % (name, len(g_), len(want))
+    tol = Fraction(0) if exact else Fraction(scale) * Fraction(1, 2 ** 44)
+    for k, (x, y) in enumerate(zip(g_, want)):
+        if not np.isfinite(x) or abs(Fraction(float(x)) - y) > tol:
+            return '%s[%d] is %r, the model gives %s = %r' % (name, k, float(x), y, float(y))
+    return None
+
+
+def _fg_call_bad(e, txt, given, scale):
+    """one recorded call against `<fn> <mod> <id> <cores> <nl> ; <c> ; <xs> ; <ys>`"""
+    from tools.common import unq
+    head, c_, xs_, ys_ = [x.strip() for x in txt.split(';')[:4]]
+    fn, fm, pid, cores, nl = head.split()
+    got = (e['fn'], e['fm'], e['pid'], e['cores'], e['nl'])
+    want = (fn, fm, int(pid), int(cores), int(nl))
+    if got != want:
+        return 'compiled call (function, module, panel, num_cores, NLterms) is %r, the model predicts %r' % (got, want)
+    return (_fg_vals_bad('amplitude vector handed to %s for panel %s' % (fn, pid), e['c'], [unq(x) for x in c_.split()], 1., True)
+            or _fg_vals_bad('xs handed to %s for panel %s' % (fn, pid), e['xs'], [unq(x) for x in xs_.split()], scale, given)
+            or _fg_vals_bad('ys handed to %s for panel %s' % (fn, pid), e['ys'], [unq(x) for x in ys_.split()], scale, given))
+
+
+def _fg_cols_bad(what, names, arrays, txtcols, real, rec_out, scale, given, F=None):
+    """returned arrays against `<shape> ; <col> ; <col> …` (fake kernels: values; compiled kernels: arrangement of the recorded outputs)"""
+    from tools.common import unq
+    cols = [x.strip() for x in txtcols]
+    shape = tuple(int(x) for x in cols[0].split())
+    for nm, A in zip(names, arrays):
+        if not isinstance(A, np.ndarray) or A.shape != shape:
+            return '%s[%r] has shape %r, the model predicts %r' % (what, nm, getattr(A, 'shape', None), shape)
+    for k, (nm, A) in enumerate(zip(names, arrays)):
+        if nm in ('x', 'y'):
+            bad = _fg_vals_bad('%s[%r]' % (what, nm), A, [unq(x) for x in cols[1 + k].split()], scale, given)
+            if bad:
+                return bad
+    data = [(nm, A) for nm, A in zip(names, arrays) if nm not in ('x', 'y')]
+    off = 1 + len(names) - len(data)
+    if not real:
+        for k, (nm, A) in enumerate(data):
+            want = [unq(x) for x in cols[off + k].split()]
+            sc = max([1.] + [abs(float(v)) for v in want])
+            bad = _fg_vals_bad('%s[%r] (fake kernels)' % (what, nm), A, want, sc, False)
+            if bad:
+                return bad
+        return None
+    if F is None:
+        for k, (nm, A) in enumerate(data):
+            if not np.array_equal(A.ravel(), rec_out[k]):
+                return '%s[%r] is not the %d-th output of the compiled call in the order of the points' % (what, nm, k)
+        return None
+    E = np.vstack(rec_out)
+    for k, (nm, A) in enumerate(data):
+        want = F[k] @ E
+        if want.size and np.abs(A.ravel() - want).max() > 1e-12 * max(np.abs(want).max(), 1e-300):
+            return '%s[%r] is not row %d of the laminate matrix times the strains the compiled call returned' % (what, nm, k)
+    return None
+
+
+def fg_compare(g, run, rep, init_rep=None):
+    """None or the first difference between what the running glue did and the model's reply"""
+    parts = [x.strip() for x in rep.split('|')]
+    out = run['outcome']
+    if parts[0].startswith('err parse') or parts[0].startswith('err unknown'):
+        return 'driver could not read the case: ' + rep[:80]
+    if g['kind'] == 'assembly' and init_rep is not None and init_rep.strip() != run['ranges'].strip():
+        return 'PanelAssembly.__init__ / get_size stored ranges %s, the model predicts %s' % (run['ranges'], init_rep.strip())
+    if parts[0].startswith('err'):
+        _, pyexc, tag = parts[0].split()
+        if out[0] != 'err':
+            return 'the call returns, the model predicts %s (%s)' % (pyexc, tag)
+        if out[1] != pyexc:
+            return 'the call raises %s (%s), the model predicts %s (%s)' % (out[1], out[2][:60], pyexc, tag)
+        if g['kind'] == 'panel':
+            if len(run['log']) != int(parts[1]):
+                return '%d compiled calls before the exception, the model predicts %s' % (len(run['log']), parts[1])
+            return _fg_post_bad(run, parts[2], None)
+        return None
+    if out[0] != 'ok':
+        return 'the call raises %s: %s; the model predicts a result' % (out[1], out[2][:80])
+    ret = out[1]
+    if g['kind'] == 'panel':
+        calls = [x for x in parts[1].split('&') if x.strip()]
+        if len(calls) != len(run['log']):
+            return '%d compiled calls, the model predicts %d' % (len(run['log']), len(calls))
+        for e, txt in zip(run['log'], calls):
+            bad = _fg_call_bad(e, txt, run['given'], run['scale'])
+            if bad:
+                return bad
+        cols = parts[2].split(';')
+        e = run['log'][0]
+        real = g['real'] and len(e['c']) >= FG_NUM[g['spec']['model']] * run['p'].m * run['p'].n
+        if g['meth'] == 'uvw':
+            if not (isinstance(ret, tuple) and len(ret) == 5):
+                return 'Panel.uvw does not return five arrays'
+            bad = _fg_cols_bad('uvw', FG_UVW, ret, cols, real, e['out'], run['scale'], run['given'])
+        else:
+            names = ('x', 'y') + (FG_E if g['meth'] == 'strain' else FG_N)
+            if not isinstance(ret, dict) or tuple(sorted(ret.keys())) != tuple(sorted(names)):
+                return 'Panel.%s returns the keys %r, the model %r' % (g['meth'], sorted(getattr(ret, 'keys', lambda: [])()), sorted(names))
+            F = None
+            if g['meth'] == 'stress':
+                F = run['Farg'] if run['Farg'] is not None else run['p'].F
+            bad = _fg_cols_bad(g['meth'], names, [ret[k] for k in names], cols, real, e['out'], run['scale'], run['given'], F=F)
+        return bad or _fg_post_bad(run, parts[3], ret if g['meth'] == 'uvw' else None)
+    entries = [x for x in '|'.join(parts[1:]).split('&') if x.strip()]
+    names = ('x', 'y') + {'uvw': FG_UVW, 'strain': FG_E, 'stress': FG_N}[g['meth']]
+    if not isinstance(ret, dict) or tuple(sorted(ret.keys())) != tuple(sorted(names)):
+        return 'PanelAssembly.%s returns the keys %r, the model %r' % (g['meth'], sorted(getattr(ret, 'keys', lambda: [])()), sorted(names))
+    for k in names:
+        if not isinstance(ret[k], list) or len(ret[k]) != len(entries):
+            return 'PanelAssembly.%s: %d entries under %r, the model predicts %d panels of the group' % (g['meth'], len(ret[k]), k, len(entries))
+    if len(run['log']) != len(entries):
+        return '%d compiled calls, the model predicts %d' % (len(run['log']), len(entries))
+    for j, (e, txt) in enumerate(zip(run['log'], entries)):
+        sub = txt.split(';')
+        bad = _fg_call_bad(e, ';'.join(sub[:4]), False, run['scale'])
+        if bad:
+            return 'entry %d of the group: %s' % (j, bad)
+        p = [p_ for p_ in run['ps'] if p_._fg_id == e['pid']][0]
+        real = g['real'] and len(e['c']) >= (1 if e['fm'] == 'cltW' else 3) * p.m * p.n
+        bad = _fg_cols_bad('%s entry %d' % (g['meth'], j), names, [ret[k][j] for k in names], sub[4:], real, e['out'], run['scale'], False,
+                           F=p.F if g['meth'] == 'stress' else None)
+        if bad:
+            return bad
+    return None
+
+
+def _fg_post_bad(run, txt, ret):
+    """stored attributes of the panel against `Xs … ; Ys … ; u … ; …`"""
+    p = run['p']
+    for item in txt.split(';'):
+        item = item.strip()
+        nm, rest = item.split(' ', 1)
+        want = _fg_parse_arr(rest)
+        got = getattr(p, nm)
+        if want is None:
+            if got is not None:
+                return 'attribute %s is set after the call, the model leaves it None' % nm
+            continue
+        if got is None:
+            return 'attribute %s is None after the call, the model stores an array of shape %r' % (nm, want[0])
+        if got.shape != want[0]:
+            return 'attribute %s has shape %r, the model stores %r' % (nm, got.shape, want[0])
+        if nm in ('Xs', 'Ys'):
+            bad = _fg_vals_bad('attribute ' + nm, got, want[1], run['scale'], run['given'])
+            if bad:
+                return bad
+        elif ret is not None and got is not ret[FG_UVW.index(nm)]:
+            return 'attribute %s is not the returned array' % nm
+    return None
+
+
+def fg_predicate(g):
+    """C11 itself on the case (compiled kernels, no model): a successful query must report at every point the compiled kernel's value for that
+    point alone and, in an assembly, for that panel's own slice c[start:end] with start/end the running sums of 3 m n.  None or text."""
+    import copy
+    g = copy.deepcopy(g)
+    g['real'] = True
+    if g['ckind'] in ('short', 'scalar'):
+        return None
+    try:
+        run = fg_run(g)
+    except Exception:                                            # noqa
+        return None
+    if run['outcome'][0] != 'ok' or not run['log']:
+        return None
+    ret = run['outcome'][1]
+    from compmech.panel import modelDB
+
+    def single(p, c, x, y, meth, nl):
+        mod = modelDB.db[p.model]['field']
+        c = np.ascontiguousarray(c, dtype=float)
+        X, Y = np.array([float(x)]), np.array([float(y)])
+        if meth == 'uvw':
+            return [float(v[0]) for v in mod.fuvw(c, p, X, Y, 1)]
+        e = np.array([float(v[0]) for v in mod.fstrain(c, p, X, Y, 1, int(nl))])
+        return list(e) if meth == 'strain' else None, e
+
+    def cmp(what, vals, p, c, xs, ys, meth, nl, F):
+        for k in range(len(xs)):
+            ref = single(p, c, xs[k], ys[k], meth, nl)
+            if meth == 'stress':
+                ref = list(F @ ref[1])
+            elif meth == 'strain':
+                ref = ref[0]
+            got = [float(np.ravel(v)[k]) for v in vals]
+            sc = max(max(abs(x) for x in ref), 1e-300)
+            for nm, a_, b_ in zip({'uvw': FG_UVW, 'strain': FG_E, 'stress': FG_N}[meth], got, ref):
+                if abs(a_ - b_) > 1e-9 * sc:
+                    return '%s: %s at point %d (x=%.6g, y=%.6g) is %.9e; the field evaluated at that point alone gives %.9e' % (what, nm, k, xs[k], ys[k], a_, b_)
+        return None
+    if g['kind'] == 'panel':
+        p = run['p']
+        if len(run['log'][0]['c']) < FG_NUM[g['spec']['model']] * p.m * p.n:
+            return None
+        if p.Xs is None:
+            return None
+        xs, ys = np.ravel(p.Xs), np.ravel(p.Ys)
+        if run['given'] is False and g.get('_grid') is None:
+            gx = np.linspace(0, p.a, max(int(run['line'].split('gridx=')[1].split()[0]), 0))
+            gy = np.linspace(0, p.b, max(int(run['line'].split('gridy=')[1].split()[0]), 0))
+            want = [(x, y) for y in gy for x in gx]
+            if len(want) != len(xs) or any(abs(x - w[0]) > 1e-12 or abs(y - w[1]) > 1e-12 for x, y, w in zip(xs, ys, want)):
+                return 'Panel.%s on a %d x %d grid does not evaluate the points (x_j, y_i) of the grid in the order of the result array' % (g['meth'], len(gx), len(gy))
+        vals = ret if g['meth'] == 'uvw' else [ret[k] for k in (FG_E if g['meth'] == 'strain' else FG_N)]
+        F = run['Farg'] if run['Farg'] is not None else p.F
+        return cmp('Panel.' + g['meth'], vals, p, run['log'][0]['c'], xs, ys, g['meth'], g['nl'], F)
+    if g['tamper'] is not None:
+        return None
+    ps = run['ps']
+    c = np.asarray(run['c'], dtype=float)
+    if c.ndim != 1 or len(c) < run['size']:
+        return None
+    start = 0
+    j = 0
+    for p in ps:
+        end = start + 3 * p.m * p.n
+        if p.group == g['group']:
+            if j >= len(ret['x']):
+                return 'PanelAssembly.%s returns %d entries for a group of more panels' % (g['meth'], len(ret['x']))
+            gx, gy = np.linspace(0, p.a, g['gx']), np.linspace(0, p.b, g['gy'])
+            pts = [(x, y) for y in gy for x in gx]
+            names = {'uvw': FG_UVW, 'strain': FG_E, 'stress': FG_N}[g['meth']]
+            if np.shape(ret[names[0]][j]) != (g['gy'], g['gx']):
+                return 'PanelAssembly.%s: entry %d has shape %r instead of (gridy, gridx) = %r' % (g['meth'], j, np.shape(ret[names[0]][j]), (g['gy'], g['gx']))
+            bad = cmp('PanelAssembly.%s, panel %d of the list (entry %d of group %r, own slice c[%d:%d])' % (g['meth'], p._fg_id, j, g['group'], start, end),
+                      [ret[k][j] for k in names], p, c[start:end], [q_[0] for q_ in pts], [q_[1] for q_ in pts], g['meth'], g['nl'], p.F)
+            if bad:
+                return bad
+            j += 1
+        start = end
+    if j != len(ret['x']):
+        return 'PanelAssembly.%s returns %d entries for the %d panels of group %r' % (g['meth'], len(ret['x']), j, g['group'])
+    return None
+
+
+def field_glue_correspondence(ctx, rng, cases=None):
+    """H: recorded-call correspondence of Model/FieldGlue.lean; returns True when a disagreement was reported"""
+    from compmech.panel import _panel
+    from compmech.panel.assembly import assembly as asm_mod
+    from tools.props.C05 import LineTracer
+    full_run = cases is None
+    if cases is None:
+        cases = [fg_gen_pcase(rng, t) for t in range(ctx.scale(260, 2500))] + [fg_gen_acase(rng, t) for t in range(ctx.scale(160, 1500))]
+    modelled = [_panel.Panel._default_field, _panel.Panel.uvw, _panel.Panel.strain, _panel.Panel.stress, asm_mod.default_field,
+                asm_mod.PanelAssembly.__init__, asm_mod.PanelAssembly.get_size, asm_mod.PanelAssembly.uvw, asm_mod.PanelAssembly.strain,
+                asm_mod.PanelAssembly.stress]
+    names = ['Panel._default_field', 'Panel.uvw', 'Panel.strain', 'Panel.stress', 'assembly.default_field', 'PanelAssembly.__init__',
+             'PanelAssembly.get_size', 'PanelAssembly.uvw', 'PanelAssembly.strain', 'PanelAssembly.stress']
+    tracer = FgTracer(modelled, names)
+    runs, lines = [], []
+    for g in cases:
+        run = fg_run(g, tracer=tracer)
+        runs.append(run)
+        lines.append(run['line'])
+        if g['kind'] == 'assembly':
+            lines.append(run['init_line'])
+    replies = driver(lines, pid='C11')
+    if len(replies) != len(lines):
+        raise RuntimeError('C11 driver returned %d replies for %d lines' % (len(replies), len(lines)))
+    dist = dict(cases=len(cases), kinds={}, methods={}, models={}, c={}, points={}, real=0, outcomes={}, groups_with_several_panels=0,
+                tampered=0, calls=0)
+    inc = lambda d, k: d.__setitem__(str(k), d.get(str(k), 0) + 1)
+    k = nbad = 0
+    for g, run in zip(cases, runs):
+        rep = replies[k]
+        init_rep = None
+        k += 1
+        if g['kind'] == 'assembly':
+            init_rep = replies[k]
+            k += 1
+        ctx.evaluations += 1
+        inc(dist['kinds'], g['kind'])
+        inc(dist['methods'], g['kind'][0] + '.' + g['meth'])
+        inc(dist['c'], g['ckind'])
+        dist['real'] += bool(g['real'])
+        dist['calls'] += len(run['log'])
+        inc(dist['outcomes'], 'ok' if rep.startswith('ok') else ' '.join(rep.split('|')[0].split()[1:3]))
+        if g['kind'] == 'panel':
+            inc(dist['models'], g['spec']['model'])
+            inc(dist['points'], run['pkind'])
+            if rep.startswith('ok') and run['log'] and len(run['log'][0]['xs']) >= 4:
+                ctx.nontrivial.add(('glue', g['seed']))
+        else:
+            for s_ in g['specs']:
+                inc(dist['models'], s_['model'])
+            dist['tampered'] += g['tamper'] is not None
+            if rep.startswith('ok') and len(run['log']) >= 2:
+                dist['groups_with_several_panels'] += 1
+                ctx.nontrivial.add(('glue', g['seed']))
+        if len(ctx.samples) < 6 and rep.startswith('ok') and len(run['log']) >= 2:
+            ctx.sample(dict(glue_case={k_: v for k_, v in g.items() if k_ != 'specs'}, panels=[(s_['m'], s_['n'], s_['group']) for s_ in g.get('specs', [])],
+                            model_reply=rep[:240]))
+        bad = fg_compare(g, run, rep, init_rep)
+        if bad:
+            nbad += 1
+            pred = None
+            try:
+                pred = fg_predicate(g)
+            except Exception as e:                               # noqa
+                ctx.log('field glue: property predicate unusable on the disagreeing case: %r' % (e,))
+            what = ('field glue correspondence (Model/FieldGlue.lean vs compmech/panel/%s): %s'
+                    % ('_panel.py' if g['kind'] == 'panel' else 'assembly/assembly.py', bad))
+            if pred:
+                what = 'C11 fails on the implementation: ' + pred + ' [' + what + ']'
+            if nbad <= 3 or pred:
+                ctx.violation(what, dict(tie='H field glue', glue_case=g, line=run['line'], model_reply=rep[:2000]), found_input=bool(pred))
+            if (nbad >= 3 and pred) or nbad >= 25:
+                break
+    cov = {}
+    for f, nm in zip(modelled, names):
+        al = tracer.all_lines(f)
+        miss = sorted(al - tracer.hit[nm])
+        cov[nm] = dict(lines=len(al), executed=len(al) - len(miss), missed=miss)
+        if miss and full_run and not nbad:
+            ctx.violation('field glue correspondence: lines %s of %s are never executed by the corpus, so the hand model Model/FieldGlue.lean is not '
+                          'compared with them' % (miss, nm), dict(tie='H field glue coverage', function=nm, lines=miss), found_input=False)
+            nbad += 1
+    dist['line_coverage_of_modelled_functions'] = cov
+    ctx.cov['field_glue_correspondence'] = dist
+    return nbad > 0
+
+
+class FgTracer(object):
+    """executed lines of the modelled functions, keyed by qualified name (two functions are called `uvw`)"""
+
+    def __init__(self, funcs, names):
+        import sys
+        self.sys = sys
+        self.codes = dict((f.__code__, nm) for f, nm in zip(funcs, names))
+        self.hit = dict((nm, set()) for nm in names)
+        self.old = None
+
+    def all_lines(self, f):
+        import dis
+        lines = set(l for _, l in dis.findlinestarts(f.__code__) if l is not None)
+        lines.discard(f.__code__.co_firstlineno)
+        return lines
+
+    def glob(self, frame, event, arg):
+        nm = self.codes.get(frame.f_code)
+        if nm is None:
+            return None
+        hit = self.hit[nm]
+
+        def local(fr, ev, ar):
+            if ev == 'line':
+                hit.add(fr.f_lineno)
+            return local
+        return local
+
+    def __enter__(self):
+        self.old = self.sys.gettrace()
+        self.sys.settrace(self.glob)
+        return self
+
+    def __exit__(self, *a):
+        self.sys.settrace(self.old)
+
+
+
 def correspondence(ctx):
     ir = translate(ctx)
     rng = ctx.rng
@@ -268,6 +940,8 @@ def correspondence(ctx):
     # the translator above covers the C-level cf* bodies, this covers the rest of the two files as written
     from tools import source_tie
     if source_tie.check(ctx, 'C11', ('panel_field',), predicate=source_field_predicate):
+        return
+    if field_glue_correspondence(ctx, rng):
         return
     dist = dict(models={}, cores={}, npts={}, NL=0)
     for t in range(ctx.scale(40, 400)):
@@ -395,6 +1069,16 @@ def search(ctx, reason):
 
 def replay(ctx, data):
     r = data['replay']
+    if r.get('glue_case'):
+        g = r['glue_case']
+        run = fg_run(g)
+        lines = [run['line']] + ([run['init_line']] if g['kind'] == 'assembly' else [])
+        reps = driver(lines, pid='C11')
+        bad = fg_compare(g, run, reps[0], reps[1] if len(reps) > 1 else None)
+        pred = fg_predicate(g)
+        print('glue vs model:', bad)
+        print('property on implementation:', pred)
+        return 1 if (bad or pred) else 0
     if r.get('case') and not r.get('derived'):
         bad, ident = run_case(ctx, r['case'], translate(ctx))
         print('property on implementation:', bad, ident)
